@@ -30,7 +30,7 @@
 (***************************************************************************)
 EXTENDS Integers, Sequences, FiniteSets, TLC, RatAlg
 
-CONSTANTS Stride     \* 1: all cases
+CONSTANTS Stride     \* 1: all rays; 2: the base rays only
 
 R(x) == RNorm(<<x[1], x[2]>>)
 RInv(x) == RNorm(<<x[2], x[1]>>)
@@ -103,11 +103,13 @@ Maps(n, len, dir) ==
 \* ------------------------------------------------------------------ cases
 VARIABLES case, expected
 vars == <<case, expected>>
-Rays == {<<<<1, 2, 2>>, 3>>, <<<<2, 0 - 3, 6>>, 7>>, <<<<0, 3, 0 - 4>>, 5>>, <<<<0 - 2, 0, 0>>, 2>>, <<<<4, 4, 0 - 7>>, 9>>, <<<<0, 1, 0>>, 1>>}
+BaseRays == {<<<<1, 2, 2>>, 3>>, <<<<2, 0 - 3, 6>>, 7>>, <<<<0, 3, 0 - 4>>, 5>>, <<<<0 - 2, 0, 0>>, 2>>, <<<<4, 4, 0 - 7>>, 9>>, <<<<0, 1, 0>>, 1>>}
+MoreRays == {<<<<0 - 1, 4, 8>>, 9>>, <<<<6, 0 - 2, 0 - 3>>, 7>>, <<<<3, 4, 12>>, 13>>, <<<<0, 0, 0 - 3>>, 3>>, <<<<2, 6, 0 - 9>>, 11>>, <<<<0 - 4, 0, 3>>, 5>>, <<<<1, 0, 0>>, 1>>,
+             <<<<0 - 2, 0 - 1, 2>>, 3>>, <<<<6, 6, 7>>, 11>>, <<<<0, 0 - 5, 12>>, 13>>}
+Rays == IF Stride = 1 THEN BaseRays \cup MoreRays ELSE BaseRays
 Dirs == {<<<<1, 1>>, <<0, 1>>, <<0, 1>>>>, <<<<0, 1>>, <<1, 1>>, <<0, 1>>>>, <<<<0, 1>>, <<0, 1>>, <<1, 1>>>>, <<<<1, 1>>, <<0 - 2, 1>>, <<1, 2>>>>}
 AllCases == [ray : Rays, dir : Dirs]
-Thin(c) == Stride = 1 \/ (c.ray[2] + Cardinality({i \in 1..3 : c.dir[i] = <<1, 1>>})) % Stride = 0
-Cases == {c \in AllCases : Thin(c)}
+Cases == AllCases
 Proj(m) == [Exp |-> m.Exp, T |-> m.T, Tinv |-> m.Tinv]
 Init == /\ case \in Cases
         /\ expected = Proj(Maps(case.ray[1], case.ray[2], case.dir))
